@@ -412,6 +412,9 @@ func (w *worker) evalWuffs(k *kase, res *result) {
 			if k.chunked {
 				modes = append(modes, [2]uint32{1, 1}, [2]uint32{4093, 511})
 			}
+			if k.model && len(src) <= 4096 {
+				w.wuffsModelOps(k, f, enc, res)
+			}
 			for _, m := range modes {
 				st, consumed, o, err := w.wuffs.decode(fb, enc, m[0], m[1])
 				res.wfRuns++
@@ -432,6 +435,48 @@ func (w *worker) evalWuffs(k *kase, res *result) {
 		} else {
 			res.fail("conformance:wuffs:"+fn+":driver", "Wuffs driver process not available", clip(encOp))
 		}
+	}
+}
+
+// wuffsModelOps: correspondence between the REAL Wuffs std/lzma decoder (whole-buffer I/O) and its Lean
+// model (Model/LzmaWuffs.lean, literal path) on the encoding, on the encoding followed by junk, and on
+// truncations of it. LZMA files go to the decoder as they are; of an XZ file the raw LZMA2 chunk
+// sequence (everything after the 24 header bytes) goes to std/lzma in LZMA2 mode, the way std/xz drives it.
+func (w *worker) wuffsModelOps(k *kase, f lz.FileFormat, enc []byte, res *result) {
+	fb, name, body := byte('L'), "lzma", enc
+	if f == lz.FileFormatXz {
+		if len(enc) < 24 {
+			return
+		}
+		fb, name, body = 'M', "lzma2", enc[24:]
+	}
+	inputs := [][]byte{body, append(append([]byte(nil), body...), 0x55, 0x00, 0xFF)}
+	for _, cut := range []int{1, 2, 5, len(body) / 2, len(body) - 14} {
+		if cut > 0 && cut < len(body) {
+			inputs = append(inputs, body[:len(body)-cut])
+		}
+	}
+	for _, in := range inputs {
+		if w.wuffs == nil {
+			return
+		}
+		st, consumed, o, err := w.wuffs.decode(fb, in, 0, 0)
+		res.wfRuns++
+		if err != nil {
+			res.fail("conformance:wuffs:"+name+":driver", "Wuffs driver failed (model tie): "+err.Error(), "wdec "+name+" "+hlib.Hex(in))
+			w.wuffs = nil
+			return
+		}
+		out := ""
+		if st == "ok" {
+			out = fmt.Sprintf("ok %s rest=%d", hlib.Hex(o), len(in)-consumed)
+		} else {
+			// the C API prints "#truncated input" of package lzma as "lzma: truncated input"
+			st = "#" + strings.TrimPrefix(strings.TrimPrefix(st, "lzma: "), "#")
+			out = fmt.Sprintf("fail %s %s", strings.ReplaceAll(st, " ", "_"), hlib.Hex(o))
+		}
+		res.ops = append(res.ops, opLine{"wdec " + name + " " + hlib.Hex(in), out})
+		res.count("wuffs-model-tie:" + name + ":" + strings.Fields(out)[0] + ":" + strings.ReplaceAll(st, " ", "_"))
 	}
 }
 
